@@ -20,6 +20,8 @@ Streams (kinds; every kind is also re-run by harness/c04.py under each back-end)
             every step
   segx      segment_length of every (small) segment, _generate_segments(return_lengths=True), NeuronList inputs
   mesh      MeshNeuron geodesic_matrix (vertex labels, from_, limit, weight) vs shortest paths on the edge graph
+  dtype     node tables whose x/y/z columns are uint8 / uint16 / int16 / uint32 / int32 / int64: small edges and edges whose squared
+            coordinate differences overflow the column dtype (child coordinates smaller than the parent's for the unsigned ones)
 """
 import warnings, random, itertools
 import numpy as np
@@ -861,6 +863,134 @@ def case_mesh(ctx, case, be=None):
         ctx.oracle(False, f'geodesic_matrix(MeshNeuron) raised {type(e).__name__}: {str(e)[:100]} {tag}', case)
 
 
+# ================================================================================================ dtype
+SIG_FC_INT_OVERFLOW = 'navis-fastcore parent_dist/integer coordinate columns/squared coordinate difference overflows the column dtype'
+
+DT_MAX = {'uint8': 2 ** 8 - 1, 'uint16': 2 ** 16 - 1, 'int16': 2 ** 15 - 1, 'uint32': 2 ** 32 - 1, 'int32': 2 ** 31 - 1, 'int64': 2 ** 63 - 1}
+# integer-length edge vectors per regime: (vector, length)
+DT_SMALL = [((1, 0, 0), 1), ((2, 0, 0), 2), ((1, 2, 2), 3), ((3, 4, 0), 5), ((2, 3, 6), 7), ((0, 0, 0), 0)]
+DT_BIG = {'uint8': [((30, 40, 0), 50), ((20, 0, 0), 20), ((12, 16, 0), 20)],
+          'uint16': [((300, 400, 0), 500), ((256, 0, 0), 256), ((200, 200, 100), 300), ((3, 4, 0), 5)],
+          'int16': [((300, 400, 0), 500), ((182, 0, 0), 182), ((120, 120, 60), 180), ((3, 4, 0), 5)],
+          'uint32': [((70000, 0, 0), 70000), ((60000, 80000, 0), 100000), ((46341, 0, 0), 46341), ((3, 4, 0), 5)],
+          'int32': [((50000, 0, 0), 50000), ((30000, 40000, 0), 50000), ((46341, 0, 0), 46341), ((46340, 0, 0), 46340), ((3, 4, 0), 5)],
+          'int64': [((70000, 0, 0), 70000), ((3000000000, 4000000000, 0), 5000000000), ((3, 4, 0), 5)]}
+
+
+def gen_dtype(r):
+    """A small forest whose coordinates fit the chosen integer dtype; regime 'big': some squared coordinate differences exceed the
+    dtype's range.  Signs are random, so unsigned tables contain children whose coordinate is smaller than the parent's."""
+    dt = r.choice(['uint8', 'uint16', 'int16', 'uint32', 'int32', 'int64'])
+    regime = r.choice(['small', 'big', 'big'])
+    vecs = DT_SMALL if regime == 'small' else DT_BIG[dt]
+    unsigned = dt.startswith('u')
+    hi = DT_MAX[dt]
+    lo = 0 if unsigned else -hi
+    for _ in range(50):
+        n = r.randint(2, 8)
+        par = [-1] + [r.randrange(i) if r.random() < 0.85 else -1 for i in range(1, n)]
+        mid = (hi + lo) // 2 if hi < 2 ** 40 else 0
+        pos = []
+        ok = True
+        for i in range(n):
+            if par[i] < 0:
+                span = min(hi - mid, 1000)
+                pos.append([mid + r.randint(-span // 2, span // 2) for _ in range(3)])
+            else:
+                v, _ = r.choice(vecs)
+                v = list(v); r.shuffle(v)
+                v = [c * r.choice((-1, 1)) for c in v]
+                pos.append([pos[par[i]][k] + v[k] for k in range(3)])
+            if any(c < lo or c > hi for c in pos[-1]):
+                ok = False
+                break
+        if not ok:
+            continue
+        ids = r.sample(range(0, 3 * n + 2), n)
+        rows = [dict(id=ids[i], parent=(ids[par[i]] if par[i] >= 0 else -1), x=pos[i][0], y=pos[i][1], z=pos[i][2]) for i in range(n)]
+        if r.random() < 0.5:
+            r.shuffle(rows)
+        return dict(rows=rows, dtype=dt, regime=regime, meta=dict(shape='dtype', n=n, labeling='sparse', order='mixed'))
+    rows = [dict(id=1, parent=-1, x=5, y=0, z=0), dict(id=2, parent=1, x=3, y=0, z=0)]
+    return dict(rows=rows, dtype=dt, regime='small', meta=dict(shape='dtype', n=2, labeling='seq', order='parent_first'))
+
+
+def square_overflow(rows, dt):
+    """Does the sum of the squared coordinate differences of some edge exceed the range of the column dtype?"""
+    byid = {r['id']: r for r in rows}
+    for r in rows:
+        if r['parent'] >= 0:
+            p = byid[r['parent']]
+            if sum((r[c] - p[c]) ** 2 for c in 'xyz') > DT_MAX[dt]:
+                return True
+    return False
+
+
+def to_neuron_dtype(rows, dt):
+    df = G.rows_to_df(rows)
+    for c in ('x', 'y', 'z'):
+        df[c] = np.array([r[c] for r in rows], dtype=np.int64).astype(getattr(np, dt))
+    return navis.TreeNeuron(df, units='1 nm')
+
+
+def case_dtype(ctx, case, be=None):
+    rows, dt = case['rows'], case['dtype']
+    tag = f'[{be}]' if be else ''
+    x = to_neuron_dtype(rows, dt)
+    if str(x.nodes.x.dtype) != dt:
+        ctx.count('dtype_kept', f'{dt}->{x.nodes.x.dtype}')
+    wire = G.wire_rows(rows)
+    assert integer_edges(ctx, wire), 'generator produced a non-integer edge length'
+    ids = [r['id'] for r in rows]
+    sid = sorted(ids)
+    ovf = square_overflow(rows, dt)
+    # values that come from navis-fastcore when it is active: it is handed the raw integer columns and computes in their dtype
+    fsig = SIG_FC_INT_OVERFLOW if (navis.utils.fastcore and ovf) else None
+    ctx.count('dtype', f'{dt}/{case["regime"]}/{"overflow" if ovf else "fits"}')
+    w = f'(x/y/z columns {dt}) {tag}'
+    cable = ctx.ask('f.cable ' + wire)
+    # --- graph based (networkx / igraph graphs built by navis): right on every back-end
+    try:
+        d = navis.graph.dist_to_root(x, weight='weight')
+        ctx.defn(' '.join(f'{i}={fmt(d[i])}' for i in sid), ctx.ask(f'f.distroot 1 | {wire}'), f'dist_to_root(weight) {w}', case)
+        ss = [[int(v) for v in s] for s in x.small_segments]
+        ctx.defn(canon_segs(ss), ctx.ask('f.smallsegs ' + wire), f'small_segments {w}', case)
+        if ss:
+            got = ','.join(fmt(navis.segment_length(x, s)) for s in ss)
+            ctx.defn(got, ctx.ask(f'c05x.seglen 1 | {wire} | {segs_wire(ss)}'), f'segment_length of every small segment {w}', case)
+        ref = {}
+        for tok in ctx.ask(f'f.geo 0 1 inf * | {wire}').split():
+            a, vs = tok.split('=')
+            for b, v in zip(sid, vs.split(',')):
+                ref[(int(a), b)] = v
+        for a, b in [(ids[0], ids[-1]), (ids[-1], ids[0]), (ids[len(ids) // 2], ids[0])]:
+            ctx.defn(fmt(navis.dist_between(x, a, b)), ref[(a, b)], f'dist_between({a},{b}) {w}', case)
+        gw = sum(wt for _, _, wt in x.graph.edges(data='weight'))
+        ctx.defn(fmt(gw), cable, f'sum of the networkx edge weights vs cable length {w}', case)
+        if x.igraph is not None:
+            ctx.defn(fmt(sum(x.igraph.es['weight'])) if x.igraph.ecount() else '0', cable, f'sum of the igraph edge weights vs cable length {w}', case)
+        ctx.defn(canon_matrix(navis.geodesic_matrix(x, weight=None)), ctx.ask(f'f.geo 0 0 inf * | {wire}'), f'geodesic_matrix(weight=None) {w}', case)
+    except Exception as e:
+        ctx.oracle(False, f'a graph-based observable raised {type(e).__name__}: {str(e)[:80]} {w}', case)
+    # --- values computed from the node table / by the accelerator
+    try:
+        ctx.defn(fmt(x.cable_length), cable, f'cable_length {w}', case, signature=fsig)
+        ctx.defn(fmt(navis.morpho.cable_length(x, mask=np.ones(len(rows), dtype=bool))), cable, f'cable_length(mask=all) {w}', case, signature=fsig)
+        pdw = navis.morpho.mmetrics.parent_dist(x, root_dist=0)
+        ctx.defn(','.join(fmt(v) for v in pdw), ctx.ask(f'c05x.pdist 0 | {wire}'), f'parent_dist(root_dist=0) {w}', case, signature=fsig)
+        ctx.defn(canon_matrix(navis.geodesic_matrix(x)), ctx.ask(f'f.geo 0 1 inf * | {wire}'), f'geodesic_matrix(weight) {w}', case, signature=fsig)
+        ctx.defn(canon_matrix(navis.geodesic_matrix(x, directed=True, from_=ids[:2], limit=max(1, int(cable) // 2))),
+                 ctx.ask(f'f.geo 1 1 {max(1, int(cable) // 2)} {",".join(map(str, sorted(set(ids[:2]))))} | {wire}'),
+                 f'geodesic_matrix(weight, directed, from_, limit) {w}', case, signature=fsig)
+        segs = [[int(v) for v in s] for s in GU._generate_segments(x, weight='weight')]
+        ctx.oracle(ctx.ask(f'f.segsok 1 | {wire} | {segs_wire(segs)}') == '1', f'segments(weighted) fail the checker {w}', case, signature=fsig)
+    except BaseException as e:      # the accelerator panics (pyo3 PanicException is a BaseException) on NaN weights
+        if not (isinstance(e, Exception) or type(e).__name__ == 'PanicException'):
+            raise
+        ctx.oracle(False, f'a table-based observable raised {type(e).__name__}: {str(e)[:80]} {w}', case, signature=fsig)
+
+
+
 # ================================================================================================ generators
 def gen_zeroseg(r):
     """Forests in which whole segments have length 0 (coincident nodes) next to isolated nodes and ordinary branches:
@@ -965,6 +1095,8 @@ def gen_cases(ctx, nf=None):
         if k % 6 == 1:
             zr, zm = gen_zeroseg(r)
             yield ('segments', dict(rows=zr, warm=None, meta=zm))
+        if k % 3 == 2:
+            yield ('dtype', gen_dtype(r))
         if k % 10 == 7:
             cells = r.randint(1, 4)
             nv = 2 * (cells + 1)
@@ -985,7 +1117,9 @@ def guarded(kind, fn):
             return fn(ctx, case, be)
         except (AssertionError, RuntimeError, BrokenPipeError):
             raise                  # harness / driver problems stay infrastructure failures
-        except Exception as e:
+        except BaseException as e:
+            if not (isinstance(e, Exception) or type(e).__name__ == 'PanicException'):
+                raise
             import traceback
             tb = traceback.extract_tb(e.__traceback__)
             where = next((f'{fr.filename.split("/navis/")[-1]}:{fr.lineno}' for fr in reversed(tb) if '/navis/' in fr.filename), '?')
@@ -997,7 +1131,7 @@ def guarded(kind, fn):
 
 RUNNERS = {k: guarded(k, f) for k, f in {'dist': case_dist, 'segments': case_segments, 'geox': case_geox, 'point': case_point,
                                          'adjx': case_adjx, 'cablex': case_cablex, 'hist': case_hist, 'segx': case_segx,
-                                         'mesh': case_mesh}.items()}
+                                         'mesh': case_mesh, 'dtype': case_dtype}.items()}
 
 
 def exhaustive_rows(nmax, zero=False):
